@@ -192,6 +192,8 @@ def _retire(cg, callee):
     if callee.cls is not None:
         if callee.cls.methods.get(callee.name) is callee:
             del callee.cls.methods[callee.name]
+        if callee in callee.cls.all_methods:
+            callee.cls.all_methods.remove(callee)
     elif callee.module.functions.get(callee.name) is callee:
         del callee.module.functions[callee.name]
     for kind, c2, node in cg.edges.pop(callee, []):
